@@ -271,7 +271,26 @@ func SolveAll(obs []*Obligation, workers int, timeoutMs int, solvers []string, c
 			defer s.Close()
 			for ob := range ch {
 				want := ob.Kind == "assert" || true
-				r, m, who, secs := s.checkScript(ob.Script, ob.Vars, timeoutMs, want)
+				// staged portfolio: most obligations fall to the first solver within a second; racing all solvers on
+				// every obligation costs three processes per query and a restart of the two losers
+				stage := 1000
+				if stage > timeoutMs {
+					stage = timeoutMs
+				}
+				if d := os.Getenv("GOSYM_DUMPOBS"); d != "" {
+					os.MkdirAll(d, 0o755)
+					os.WriteFile(fmt.Sprintf("%s/%s_%s_%d.smt2", d, ob.Harness, strings.ReplaceAll(ob.Label, "/", "_"), len(ob.Script)), []byte(ob.Script+"(check-sat)\n"), 0o644)
+				}
+				first := "z3-new"
+				if len(solvers) > 0 {
+					first = solvers[0]
+				}
+				r, m, who, secs := s.checkScript(ob.Script, ob.Vars, stage, want, first)
+				if r == Unknown {
+					var secs2 float64
+					r, m, who, secs2 = s.checkScript(ob.Script, ob.Vars, timeoutMs, want)
+					secs += secs2
+				}
 				ob.Result, ob.Model, ob.Solver, ob.Secs = r, m, who, secs
 				if r == Unknown && len(ob.Asserts) > 0 {
 					// the solvers could not decide: look for a concrete model by evaluation (counterexample finder only)
